@@ -258,9 +258,12 @@ def Server.fromBelow (s : Server) (ei : Nat) (m : Msg) (asg : List Nat) : HOut S
     match assocGet s.mbox2task comp with
     | none => { st := s }
     | some ci =>
-      match assocGet s.tasks ci with
-      | none => s.systemError eKey "error: tasks"
-      | some (_, owner) => { st := s, queued := [(.client owner, .sError cls)] }
+      -- `or tid not in self.mailboxes`: errors of cancelled / delivered compilations are dropped
+      if (assocGet s.boxes comp).isNone then { st := s }
+      else
+        match assocGet s.tasks ci with
+        | none => s.systemError eKey "error: tasks"
+        | some (_, owner) => { st := s, queued := [(.client owner, .sError cls)] }
   | .sysError cls => s.systemError cls "error from below"
   | .cancel a => { st := s, queued := s.boss.broadcast (.cancel a) }
   | .shutdown => let (s', o) := s.shutdown; { st := s', direct := o }
